@@ -321,13 +321,27 @@ def run(prop, a, seed, scratch, t_start):
     tmo = max(h.timeout for h in plan) if plan else 60
     if a.tier == "thorough":
         tmo *= 4
-    mem_gb = 12 if a.tier == "quick" else 40
-    log(f"[{prop}] tier={a.tier} harnesses={len(names)} jobs={jobs} per-harness timeout={tmo}s mem-cap={mem_gb}GB")
-    out_json = os.path.join(scratch, "result.json")
-    wall = run_kani(src, target, names, jobs, tmo, mem_gb, out_json, logf=os.path.join(scratch, "kani.log"))
-    recs, err = parse_results(out_json, names, os.path.join(scratch, "kani.log"))
+    log(f"[{prop}] tier={a.tier} harnesses={len(names)} jobs={jobs} per-harness timeout={tmo}s")
+    # memory-aware scheduling: the sync-cache queries need 8-14 GB each, the others < 6 GB
+    heavy = [h for h in names if byname[h].cost >= 120]
+    light = [h for h in names if byname[h].cost < 120]
+    hjobs = max(1, min(jobs, 3 if a.tier == "quick" else 2))
+    mem_gb = 20 if a.tier == "quick" else 40
+    recs, err, wall = {}, None, 0.0
+    for gi, (grp, j) in enumerate(((light, jobs), (heavy, hjobs))):
+        if not grp:
+            continue
+        out_json = os.path.join(scratch, f"result{gi}.json")
+        logf = os.path.join(scratch, f"kani{gi}.log")
+        log(f"[{prop}]   group {gi}: {len(grp)} queries, {j} parallel")
+        wall += run_kani(src, target, grp, j, tmo, mem_gb, out_json, logf=logf)
+        r, e = parse_results(out_json, grp, logf)
+        recs.update(r)
+        if e and not err:
+            err = e
+            last_log = logf
     if err:
-        tail = "".join(open(os.path.join(scratch, "kani.log")).readlines()[-40:])
+        tail = "".join(open(last_log).readlines()[-40:])
         log(tail)
         log(f"INCONCLUSIVE property={prop}: {err}")
         write_evidence(prop, a, seed, recs, byname, [], [], [err], t_start, [])
